@@ -745,6 +745,140 @@ def install(ex):
     def hashmap_len(ex, c, a):
         return Int(64, len(deref(a[0]).items))
 
+    # ------------------------------------------------------------------ BTreeMap / BTreeSet: association list kept sorted by the crate's own Ord::cmp MIR
+    def bt_key_type(c):
+        m = re.match(r'^(?:std::collections::)?BTree(?:Map|Set)::<(.*)>::\w+(?:::<.*>)?$', c)
+        if not m:
+            raise Unsupported('BTree key type of ' + c)
+        from .core import split_top
+        return split_top(m.group(1))[0]
+
+    def bt_cmp(ex, c, x, y):
+        ty = bt_key_type(c)
+        return cmp_ordering(ex, x, y, f'<{ty} as Ord>::cmp')
+
+    def bt_find(ex, c, m, key):
+        """returns (index, found): position of key or insertion point"""
+        for i, (k, v) in enumerate(m.items):
+            o = bt_cmp(ex, c, key, k)
+            if o == 0:
+                return i, True
+            if o < 0:
+                return i, False
+        return len(m.items), False
+
+    @M(r'^<(std::collections::)?BTree(Map|Set)<.*> as Default>::default$|^BTree(Map|Set)::<.*>::new$')
+    def btree_new(ex, c, a):
+        return MapV('BTreeSet' if 'BTreeSet' in c else 'BTreeMap', [])
+
+    @M(r'^BTreeMap::<.*>::insert$')
+    def btreemap_insert(ex, c, a):
+        m = a[0].get()
+        i, found = bt_find(ex, c, m, a[1])
+        if found:
+            old = m.items[i][1]
+            m.items[i] = (m.items[i][0], a[2])       # std keeps the old key, replaces the value
+            return some(old)
+        m.items.insert(i, (a[1], a[2]))
+        return none()
+
+    @M(r'^BTreeSet::<.*>::insert$')
+    def btreeset_insert(ex, c, a):
+        m = a[0].get()
+        i, found = bt_find(ex, c, m, a[1])
+        if found:
+            return False
+        m.items.insert(i, (a[1], UNIT))
+        return True
+
+    @M(r'^BTreeMap::<.*>::remove::<')
+    def btreemap_remove(ex, c, a):
+        m = a[0].get()
+        i, found = bt_find(ex, c, m, deref(a[1]))
+        if not found:
+            return none()
+        return some(m.items.pop(i)[1])
+
+    @M(r'^BTreeSet::<.*>::remove::<')
+    def btreeset_remove(ex, c, a):
+        m = a[0].get()
+        i, found = bt_find(ex, c, m, deref(a[1]))
+        if not found:
+            return False
+        m.items.pop(i)
+        return True
+
+    @M(r'^BTreeMap::<.*>::(get|get_mut)::<')
+    def btreemap_get(ex, c, a):
+        m = deref(a[0])
+        i, found = bt_find(ex, c, m, deref(a[1]))
+        return some(Ref(_PairRef(m.items, i), 1)) if found else none()
+
+    @M(r'^BTreeSet::<.*>::contains::<|^BTreeMap::<.*>::contains_key::<')
+    def btree_contains(ex, c, a):
+        m = deref(a[0])
+        return bt_find(ex, c, m, deref(a[1]))[1]
+
+    @M(r'^BTree(Map|Set)::<.*>::len$')
+    def btree_len(ex, c, a):
+        return Int(64, len(deref(a[0]).items))
+
+    @M(r'^BTree(Map|Set)::<.*>::is_empty$')
+    def btree_is_empty(ex, c, a):
+        return len(deref(a[0]).items) == 0
+
+    @M(r'^BTreeMap::<.*>::iter$')
+    def btreemap_iter(ex, c, a):
+        m = deref(a[0])
+        view = ListV('btree-iter', [Agg('tuple', {0: Ref(_PairRef(m.items, i), 0), 1: Ref(_PairRef(m.items, i), 1)}) for i in range(len(m.items))])
+        return IterV(view, 'val')
+
+    @M(r'^BTreeSet::<.*>::iter$')
+    def btreeset_iter(ex, c, a):
+        m = deref(a[0])
+        view = ListV('btree-iter', [Ref(_PairRef(m.items, i), 0) for i in range(len(m.items))])
+        return IterV(view, 'val')
+
+    @M(r'^BTreeSet::<.*>::retain::<')
+    def btreeset_retain(ex, c, a):
+        m = a[0].get()
+        keep = []
+        for (k, v) in list(m.items):
+            h = {'k': k}
+            if ex.concretize_bool(ex.call_closure(a[1], [Ref(h, 'k')])):
+                keep.append((k, v))
+        m.items[:] = keep
+        return UNIT
+
+    @M(r'^<BTree(Map|Set)<.*> as Clone>::clone$')
+    def btree_clone(ex, c, a):
+        m = deref(a[0])
+        return MapV(m.kind, [(clone_val(k), clone_val(v)) for k, v in m.items])
+
+    @M(r'^<\[u8; \d+\] as (Ord|PartialOrd)>::(cmp|partial_cmp)$|^<\[u8\] as (Ord|PartialOrd)>::(cmp|partial_cmp)$')
+    def bytes_cmp(ex, c, a):
+        x, y = deref(a[0]).items, deref(a[1]).items
+        if len(x) != len(y):
+            raise Unsupported('compare arrays of different length')
+        w = 8 * len(x)
+        cat = lambda its: Int(w, sum(b.v << (8 * (len(its) - 1 - i)) for i, b in enumerate(its))) if all(b.conc for b in its) else Int(w, z3.Concat(*[b.z() for b in its]))
+        r = ex.binop('Cmp', cat(x), cat(y), False)
+        return some(r) if 'partial_cmp' in c else r
+
+    @M(r'^<\[u8; \d+\] as PartialEq>::(eq|ne)$')
+    def bytes_arr_eq(ex, c, a):
+        x, y = deref(a[0]).items, deref(a[1]).items
+        r = b_and(*[ex.binop('Eq', p, q, False) for p, q in zip(x, y)])
+        return b_not(r) if c.endswith('ne') else r
+
+    @M(r'^<\[u8; \d+\] as PartialOrd>::(lt|le|gt|ge)$')
+    def bytes_arr_ord(ex, c, a):
+        x, y = deref(a[0]).items, deref(a[1]).items
+        w = 8 * len(x)
+        cat = lambda its: Int(w, sum(b.v << (8 * (len(its) - 1 - i)) for i, b in enumerate(its))) if all(b.conc for b in its) else Int(w, z3.Concat(*[b.z() for b in its]))
+        op = {'lt': 'Lt', 'le': 'Le', 'gt': 'Gt', 'ge': 'Ge'}[c.split('::')[-1]]
+        return ex.binop(op, cat(x), cat(y), False)
+
     # ------------------------------------------------------------------ integer ranges as iterators
     @M(r'^<std::ops::Range<u(\d+|size)> as IntoIterator>::into_iter$')
     def range_into_iter(ex, c, a):
